@@ -49,6 +49,9 @@ type Program struct {
 	// Sibling: the same user has a second collection, "col2", whose id extends the id of "col";
 	// its shard s1 is loaded before the threads start and must live through the deletion of "col"
 	Sibling bool `json:"sibling,omitempty"`
+	// RelRoot: the manager is configured with a RELATIVE spelling of its root directory (as every
+	// shipped configuration does: ./data); the harness keeps using the absolute one
+	RelRoot bool `json:"relRoot,omitempty"`
 }
 
 const garbage = "this is not a bbolt database, it only has to fail to open"
@@ -105,7 +108,18 @@ func run(raw json.RawMessage, prefix []string) (*vsched.Trace, []schedlib.V, str
 	if p.Free {
 		timeout = 0 // the real idle timer fires at once: unloading races with the requests for real
 	}
-	sm := cluster.NewShardManager(cluster.ShardManagerConfig{RootDir: root, ShardTimeout: timeout, MaxCacheSize: -1})
+	cfgRoot := root
+	if p.RelRoot {
+		if cwd, err := os.Getwd(); err == nil {
+			if rel, err := filepath.Rel(cwd, root); err == nil {
+				cfgRoot = rel
+			}
+		}
+		if filepath.IsAbs(cfgRoot) {
+			panic("no relative spelling of " + root)
+		}
+	}
+	sm := cluster.NewShardManager(cluster.ShardManagerConfig{RootDir: cfgRoot, ShardTimeout: timeout, MaxCacheSize: -1})
 	vtime.ResetNames()
 	shardPath := func(id string) string {
 		return filepath.Join(root, cluster.USERCOLSDIR, col.UserId, col.Id, id, "sharddb.bbolt")
@@ -373,7 +387,7 @@ func clipDump(dump, needle string) string {
 }
 
 func master(cfg *harness.Config, rep *harness.Report) {
-	rep.Rule = "programs: threads from {request(s1), request(s1) twice, request(s2), delete collection} (2-4 threads) x shards preloaded-and-idle or not x backups on/off, plus programs in which the database file of s1 cannot be opened until a repair thread removes it, programs in which the backup made at idle unload fails, and a program with a second collection of the same user whose id extends the deleted one's; the idle timer of every loaded shard is a controller transition that can fire at any scheduling point while armed; scheduling points: every Lock/RLock/Unlock of the real shardmgr.go (shims), callback entry/middle/exit, deletion begin; all interleavings with at most `bound` preemptions. Invariants: the callback only runs on a usable shard handle (else a clean error before the callback), never two descriptors on one shard file, shard files present while a request uses them, no deadlock (every call returns), and a final probe can load and use every shard again (also after opens that failed)"
+	rep.Rule = "(three core programs also run with the manager's root directory spelled relative to the working directory, as the shipped configurations do) programs: threads from {request(s1), request(s1) twice, request(s2), delete collection} (2-4 threads) x shards preloaded-and-idle or not x backups on/off, plus programs in which the database file of s1 cannot be opened until a repair thread removes it, programs in which the backup made at idle unload fails, and a program with a second collection of the same user whose id extends the deleted one's; the idle timer of every loaded shard is a controller transition that can fire at any scheduling point while armed; scheduling points: every Lock/RLock/Unlock of the real shardmgr.go (shims), callback entry/middle/exit, deletion begin; all interleavings with at most `bound` preemptions. Invariants: the callback only runs on a usable shard handle (else a clean error before the callback), never two descriptors on one shard file, shard files present while a request uses them, no deadlock (every call returns), and a final probe can load and use every shard again (also after opens that failed)"
 	rep.Assumptions = []string{"virtual timer follows the Go >= 1.23 Stop/Reset contract; it fires only at quiescent points, i.e. while the cleanup goroutine waits in its select", "channel operations of shardmgr.go are real; quiescence is a stop-the-world goroutine snapshot with every goroutine blocked", "lock operations are cooperative shims (sequentially consistent)"}
 	p := pool.New(pool.Options{CPUsPerWorker: 1, JobTimeout: 300 * time.Second})
 	if cfg.Replay != "" {
@@ -435,6 +449,8 @@ func master(cfg *harness.Config, rep *harness.Report) {
 	// a sibling collection whose id extends the deleted collection's id keeps its loaded shard
 	sib := Thread{Kind: "reqsib"}
 	sibling := Program{Threads: []Thread{del, sib}, Preload: []string{"s1"}, Sibling: true}
+	// the same core programs with the root directory spelled relative to the working directory
+	twoQuick = append(twoQuick, Program{Threads: []Thread{req1, del}, Preload: []string{"s1"}, RelRoot: true}, Program{Threads: []Thread{req1, del}, RelRoot: true}, Program{Threads: []Thread{req1, req1}, Backups: true, Preload: []string{"s1"}, RelRoot: true})
 	phases := []phase{
 		{"two-thread programs, bound 0", append(append([]any{}, twoQuick...), sibling), 0},
 		{"three-thread programs (s1 preloaded), bound 0", mk(three, [][]string{{"s1"}}, []bool{false}), 0},
@@ -444,6 +460,7 @@ func master(cfg *harness.Config, rep *harness.Report) {
 		twoAll := mk(two, [][]string{nil, {"s1"}, {"s1", "s2"}}, []bool{false, true})
 		threeAll := mk(three, [][]string{nil, {"s1"}, {"s1", "s2"}}, []bool{false})
 		twoAll = append(twoAll, failing...)
+		twoAll = append(twoAll, Program{Threads: []Thread{req1, del}, Preload: []string{"s1"}, RelRoot: true}, Program{Threads: []Thread{req1, del}, RelRoot: true}, Program{Threads: []Thread{req1x2, del}, Backups: true, Preload: []string{"s1"}, RelRoot: true})
 		twoAll = append(twoAll, sibling)
 		twoAll = append(twoAll, Program{Threads: []Thread{req1, req1}, Backups: true, BackupFails: true, Preload: []string{"s1"}}, Program{Threads: []Thread{req1x2, del}, Backups: true, BackupFails: true, Preload: []string{"s1"}})
 		four := []any{Program{Threads: []Thread{req1, req2, del, req1x2}, Preload: []string{"s1"}}}
